@@ -58,9 +58,23 @@ func runC02(c *core.Ctx) {
 	}
 	inj := &c02Injector{c: c, d: d, oldCreds: map[string][][2]string{}}
 	sess := &c01Session{c: c, d: d, k: k, noOracles: true}
+	dataSeq := 0
 	sess.hook = func(phase string) {
 		if c.Failed() {
 			return
+		}
+		// application data now and then: it populates the per-candidate cache of validated sources, which
+		// forged STUN from the very same source must not be able to ride on
+		if c.T.Bias(1, 10, "data?") {
+			for _, ag := range []*rig.AgentH{d.A, d.B} {
+				if ag.Conn != nil {
+					dataSeq++
+					if n, err := ag.Conn.Write([]byte(fmt.Sprintf("app-data-%04d", dataSeq))); err == nil && n > 0 {
+						c.Probe("app-data-written")
+					}
+				}
+			}
+			d.S.Settle()
 		}
 		if c.T.Bias(1, 8, "inject?") {
 			inj.injectOne()
@@ -92,6 +106,10 @@ func runC02(c *core.Ctx) {
 			d.S.StepFair(k.checkInterval)
 			inj.injectOne()
 		}
+	}
+	if !k.restart && c.T.Bias(1, 3, "onesided") && !c.Failed() {
+		inj.oneSidedRestart(sess)
+		return
 	}
 	if k.restart && !c.Failed() {
 		inj.oldCreds["A"] = append(inj.oldCreds["A"], [2]string{d.A.Ufrag, d.A.Pwd})
@@ -480,4 +498,92 @@ func catClass(cat string) string {
 		}
 	}
 	return cat
+}
+
+// oneSidedRestart: only one agent restarts (new local credentials, fresh sockets); its peer keeps
+// credentials and addresses and is signalled again. Responses to the restarted agent's pre-Restart
+// requests are then valid under the (unchanged) remote password and come from a (again) known remote:
+// only the transaction id tells them apart, and it belongs to the ended generation.
+func (in *c02Injector) oneSidedRestart(sess *c01Session) {
+	c, d := in.c, in.d
+	target, peer, th := d.A, d.B, d.HA
+	if c.T.Choose(2, "restartwho") == 1 {
+		target, peer, th = d.B, d.A, d.HB
+	}
+	if target.Conn == nil || peer.Conn == nil {
+		return
+	}
+	// make sure requests of the target are in flight / unanswered and young
+	d.S.Advance(sess.k.checkInterval)
+	d.S.Advance(sess.k.keepalive)
+	old := in.transactions(target, th)
+	in.oldCreds[target.Name] = append(in.oldCreds[target.Name], [2]string{target.Ufrag, target.Pwd})
+	in.oldCreds[peer.Name] = append(in.oldCreds[peer.Name], [2]string{peer.Ufrag, peer.Pwd})
+	// drop whatever is in flight: the answers of the old generation are forged below, under our control
+	for _, dg := range d.W.InFlight() {
+		d.W.Drop(dg)
+	}
+	uf, pw := rig.Creds(target.Name, 7)
+	if err := target.A.Restart(uf, pw); err != nil {
+		c.Failf("harness/restart", "%v", err)
+		return
+	}
+	target.Ufrag, target.Pwd = uf, pw
+	d.S.Settle()
+	c.Probe("one-sided-restart")
+	if err := d.Gather(target); err != nil {
+		c.Failf("harness/gather", "%v", err)
+		return
+	}
+	_ = target.A.SetRemoteCredentials(peer.Ufrag, peer.Pwd)
+	for _, cand := range peer.LocalCands() {
+		_ = d.Signal(peer, target, cand)
+	}
+	d.S.Settle()
+	locals := target.LocalCands()
+	if len(locals) == 0 {
+		return
+	}
+	for _, t := range old {
+		if t.answered || t.age > 2*time.Second {
+			continue
+		}
+		// the same local IP as the request's source, on the new generation's socket
+		var dst netip.AddrPort
+		for _, lc := range locals {
+			if rig.CandAP(lc).Addr() == t.src.Addr() {
+				dst = rig.CandAP(lc)
+			}
+		}
+		if !dst.IsValid() {
+			continue
+		}
+		pre := rig.TakeSnap(target)
+		before := map[uint64]bool{}
+		for _, q := range d.W.InFlight() {
+			before[q.ID] = true
+		}
+		id := t.id
+		spec := rig.MsgSpec{Method: stun.MethodBinding, Class: stun.ClassSuccessResponse, TxID: &id, XorAddr: &dst, Key: peer.Pwd}
+		dg := d.W.Inject(t.dst, dst, spec.Build(), "forged stale/response-to-pre-restart-tx")
+		c.Fault("inject:stale/response-to-pre-restart-tx")
+		c.Logf("inject response to pre-restart tx src=%s dst=%s", t.dst, dst)
+		if res, _ := d.S.Deliver(dg); res != simnet.Delivered {
+			continue
+		}
+		post := rig.TakeSnap(target)
+		var problems []string
+		ids := hostSockIDs(d.W, th)
+		for _, q := range d.W.InFlight() {
+			if !before[q.ID] && ids[q.SockID] {
+				problems = append(problems, "agent emitted "+d.Tx.Describe(q))
+			}
+		}
+		problems = append(problems, rig.Diff(pre, post, rig.DiffOpts{AllowLastRecv: map[string]bool{"udp/" + t.dst.String(): true}})...)
+		if len(problems) > 0 {
+			c.Failf("C02/effect/stale/response-to-pre-restart-tx", "an authentic response to a request of the generation ended by Restart (from %s to %s) had an effect on %s: %v",
+				t.dst, dst, target.Name, problems)
+			return
+		}
+	}
 }
